@@ -1,57 +1,54 @@
-/-! Result plumbing of the compiler (internal/runtime/compiler/compiler.go Compile and the entry
-    points of its stages): which of `(value, error)` each stage returns, and what Compile's named
-    results `(obj, err)` hold when it returns.  The stages themselves are arbitrary functions. -/
-namespace MtailVerif.Pipeline
+import MtailVerif.Model.Bytes
+/-! Transition system of a one-shot run (mtail.go, tailer/tail.go, runtime/runtime.go, vm.Run):
+    file streams → per-stream forwarder → the shared (unbuffered) line channel → the runtime's
+    fan-out → one VM per loaded program.
 
-/-- a Go `(value, error)` pair: `val = none` is a nil value, `err = none` a nil error; an error
-    carries its list of messages (errors.ErrorList) -/
-structure Ret (α : Type) where
-  val : Option α
-  err : Option (List String)
+    Because every channel is unbuffered and has a single consumer, the order in which lines are
+    taken off the shared channel (`arrived`) is the order every VM receives them; a VM processes
+    a line completely before it accepts the next.  An action is one line moving one hop. -/
+namespace MtailVerif.Pipeline
+open MtailVerif
+
+abbrev Line := Nat × Bytes      -- (file index, text)
+
+structure St where
+  remaining : List (List Bytes)   -- per file: lines not yet put on the shared channel
+  arrived : List Line             -- lines taken off the shared channel, in arrival order
+  done : List Nat                 -- per VM: how many of `arrived` it has processed
 deriving Repr
 
-/-- parser.Parse: `if r != 0 || p.errors != nil { return nil, p.errors }; return p.root, nil` -/
-def parseRet {α : Type} (r : Int) (errors : List String) (root : α) : Ret α :=
-  if r ≠ 0 ∨ errors ≠ [] then ⟨none, some errors⟩ else ⟨some root, none⟩
+inductive Act
+  | emit (file : Nat)             -- the head line of a file goes through its forwarder to the fan-out
+  | process (vm : Nat)            -- a VM finishes its next line
+deriving Repr
 
-/-- opt.Optimise and checker.Check: `if len(errors) > 0 { return node, errors }; return node, nil` -/
-def passRet {α : Type} (errors : List String) (node : α) : Ret α :=
-  if errors.length > 0 then ⟨some node, some errors⟩ else ⟨some node, none⟩
+def enabled (s : St) : Act → Bool
+  | .emit i => match s.remaining[i]? with
+    | some (_ :: _) => true      -- (the real fan-out is stricter: no VM is more than a line behind;
+    | _ => false                  --  allowing more interleavings only strengthens the theorems)
+  | .process v => match s.done[v]? with
+    | some d => d < s.arrived.length
+    | none => false
 
-/-- codegen.CodeGen: `if len(c.errors) > 0 { return nil, c.errors }; return &c.obj, nil` -/
-def codegenRet {β : Type} (errors : List String) (obj : β) : Ret β :=
-  if errors.length > 0 then ⟨none, some errors⟩ else ⟨some obj, none⟩
+def step (s : St) : Act → St
+  | .emit i => match s.remaining[i]? with
+    | some (l :: rest) => { s with remaining := s.remaining.set i rest, arrived := s.arrived ++ [(i, l)] }
+    | _ => s
+  | .process v => match s.done[v]? with
+    | some d => { s with done := s.done.set v (d + 1) }
+    | none => s
 
-/-- what the stages do: anything -/
-structure Stages (S A O : Type) where
-  parse : S → Int × List String × A          -- goyacc's return code, the errors added, the root
-  optimise : A → List String × A
-  check : A → List String × A
-  codegen : A → List String × O
+def init (files : List (List Bytes)) (nvm : Nat) : St := ⟨files, [], List.replicate nvm 0⟩
 
-/-- Compile: each stage's error is tested right after it (`if err != nil { return }` with the
-    named results, `obj` still nil); the last statement assigns both results from CodeGen. -/
-def compile {S A O : Type} (st : Stages S A O) (optimisation : Bool) (src : S) : Ret O :=
-  let p := st.parse src
-  let r0 := parseRet p.1 p.2.1 p.2.2
-  match r0.err, r0.val with
-  | some e, _ => ⟨none, some e⟩
-  | none, none => ⟨none, none⟩       -- unreachable (parseRet), kept so that the model makes no assumption
-  | none, some a0 =>
-    let r1 := if optimisation then passRet (st.optimise a0).1 (st.optimise a0).2 else ⟨some a0, none⟩
-    match r1.err, r1.val with
-    | some e, _ => ⟨none, some e⟩
-    | none, none => ⟨none, none⟩
-    | none, some a1 =>
-      let r2 := passRet (st.check a1).1 (st.check a1).2
-      match r2.err, r2.val with
-      | some e, _ => ⟨none, some e⟩
-      | none, none => ⟨none, none⟩
-      | none, some a2 =>
-        let r3 := if optimisation then passRet (st.optimise a2).1 (st.optimise a2).2 else ⟨some a2, none⟩
-        match r3.err, r3.val with
-        | some e, _ => ⟨none, some e⟩
-        | none, none => ⟨none, none⟩
-        | none, some a3 => codegenRet (st.codegen a3).1 (st.codegen a3).2
+/-- everything has been read and every VM has caught up: the channels close, the wait groups
+    drain, `Run` returns -/
+def final (s : St) : Bool := s.remaining.all (·.isEmpty) && s.done.all (· == s.arrived.length)
+
+/-- the lines of file `i` within a sequence, in order -/
+def projFile (i : Nat) (g : List Line) : List Bytes := (g.filter (·.1 = i)).map (·.2)
+
+/-- measure for termination -/
+def measure (s : St) : Nat :=
+  (s.remaining.map (·.length)).sum * (s.done.length + 1) + (s.done.map (fun d => s.arrived.length - d)).sum
 
 end MtailVerif.Pipeline
